@@ -247,6 +247,9 @@ def variant_game(rng, base, kind=None):
 def _probs(rng, k):
     if k == 1:
         return [1 if rng.random() < 0.7 else 1.0]
+    if rng.random() < 0.05:
+        # a row that does not add up to 1 (0.9 in total): accepted by the solver as it stands
+        return [round(0.9 / k, 6)] * k
     style = rng.random()
     if k == 2:
         if style < 0.4:
